@@ -52,12 +52,13 @@ def run_one(prop, patch, extra_args=()):
 def main():
     prop = sys.argv[1]
     patches = sorted(glob.glob(os.path.join(VERIF, "mutants", prop, "*.patch")))
-    if len(sys.argv) > 2 and not sys.argv[2].startswith("-"):
+    if len(sys.argv) > 2 and not sys.argv[2].startswith("-") and sys.argv[2] != "--":
         patches = [p for p in patches if re.search(sys.argv[2], p)]
     bad = 0
+    extra = tuple(sys.argv[sys.argv.index("--") + 1:]) if "--" in sys.argv else ()
     from concurrent.futures import ThreadPoolExecutor
     with ThreadPoolExecutor(4) as ex:
-        for patch, (ok, msg) in zip(patches, ex.map(lambda p: run_one(prop, p), patches)):
+        for patch, (ok, msg) in zip(patches, ex.map(lambda p: run_one(prop, p, extra), patches)):
             print(("PASS " if ok else "FAIL ") + os.path.basename(patch) + " :: " + msg)
             bad += 0 if ok else 1
     print(f"selftest {prop}: {len(patches) - bad}/{len(patches)} as expected")
